@@ -706,6 +706,8 @@ def spec_id_rules(repo: Repo, R: Report, run_nf: ast.AST) -> None:
     parsed = lambda e: isinstance(e, ast.Attribute) and e.attr == "run_space" and any(isinstance(v, ast.Call) and call_attr(v) == "parse_pipeline_config" for v in _origins(run_nf, e.value))
     cli_parsed = bool(vals) and len(hashed) == len(vals) and all(parsed(h) for hs in hashed for h in _origins(run_nf, hs)) and len(planned_from) == 1 and all(_same(h, planned_from[0]) for hs in hashed for h in _origins(run_nf, hs))
     R.check(cli_parsed, r_sid, CLI, "_run", "identity_service.compute(asdict(pipeline_cfg.run_space))", "the CLI does not hash asdict(parsed run space) of the very block it expands into the plan", cc.lineno)
+    if cli_parsed:
+        parsed_block_intact_rules(repo, R, run_nf, hashed, [v for v in vals if isinstance(v, ast.Call) and call_attr(v) == "asdict"])
     # ... and inspection normalises asdict(<the block parsed by the parser parse_pipeline_config uses>)
     ppc = repo.resolve_name(repo.module(CLI), ast.Name(id="parse_pipeline_config", ctx=ast.Load()))
     if ppc is None or not isinstance(ppc[1], FuncNode):
@@ -777,6 +779,7 @@ def parse_agreement_rules(repo: Repo, R: Report, ppc, builder_mod, csid: ast.AST
             stored_args.append((c, arg))
     if not stored_args:
         raise AnalysisError(f"{pq}: the returned configuration object and the value stored as its `.run_space` were not found")
+    located: Set[int] = set()
     rt_calls: List[ast.Call] = []
     for c, arg in stored_args:
         outs = [o for o in _origins(pnf, arg) if not _is_none(o)]
@@ -805,6 +808,9 @@ def parse_agreement_rules(repo: Repo, R: Report, ppc, builder_mod, csid: ast.AST
             block_params = [p for p, v in ib.items() if _slice_names(csid_nf, v) & csid_params]
             if len(block_params) != 1:
                 raise AnalysisError(f"{qualname_of(csid)}: which parameter of {qualname_of(rt[1])} receives the run-space block is not clear ({block_params})")
+            if id(rt[1]) not in located:
+                located.add(id(rt[1]))
+                block_location_rules(repo, R, ppc, rt[1], block_params[0], builder_mod)
             for p in [p for p in rb if p != block_params[0]]:
                 a, b2 = rb[p], ib[p]
                 same = isinstance(a, ast.Constant) and isinstance(b2, ast.Constant) and type(a.value) is type(b2.value) and a.value == b2.value
@@ -816,6 +822,876 @@ def parse_agreement_rules(repo: Repo, R: Report, ppc, builder_mod, csid: ast.AST
                 R.violation(r_pa, site[0], site[1], norm(site[2])[:100],
                             f"the runtime parses the run-space block with `{p}={norm(a)[:40]}` ({rel_p}:{rc.lineno}), inspection with `{p}={norm(b2)[:40]}` ({BUILDER}:{ic.lineno}), and `{p}` takes part in building the parsed value in {qualname_of(rt[1])}: for every block this option touches the two sides hash different representations - `inspect` prints another spec id than run_space_start carries",
                             site[2].lineno)
+
+
+# --------------------------------------------------------------- D1 the parsed block is hashed as it was parsed
+_SHALLOW_COPIES = {"list", "tuple", "sorted", "reversed", "set", "frozenset", "iter", "dict", "copy", "OrderedDict"}
+
+
+class _OwnedFlow:
+    """Which expressions of a function can evaluate to an object that is - or is reachable from - what the caller passed for
+    one parameter (attribute chain *chain* of it), without a copy in between: locals through their reaching definitions,
+    attributes / elements / loop targets of such an object; a shallow copy is a new container of the same children."""
+
+    def __init__(self, nf: ast.AST, param: str, chain: Tuple[str, ...]):
+        self.nf, self.param, self.chain = nf, param, chain
+        self.g = CFG(nf)
+        self._idx: Dict[int, int] = {}
+        for n in self.g.nodes:
+            root = n.part if n.part is not None else (n.ast if n.kind == "stmt" else None)
+            if root is not None:
+                for y in ast.walk(root):
+                    self._idx.setdefault(id(y), n.id)
+            if n.kind == "for" and n.ast is not None:
+                for y in ast.walk(n.ast.target):
+                    self._idx.setdefault(id(y), n.id)
+        self._busy: Set[Tuple[int, int, bool]] = set()
+        self.rebound = any(isinstance(x, ast.Name) and x.id == param and isinstance(x.ctx, ast.Store) for x in ast.walk(nf))
+
+    def node_of(self, x: ast.AST) -> Optional[int]:
+        return self._idx.get(id(x))
+
+    def _attr_chain(self, e: ast.AST) -> Optional[Tuple[str, Tuple[str, ...]]]:
+        attrs: List[str] = []
+        while isinstance(e, ast.Attribute):
+            attrs.append(e.attr)
+            e = e.value
+        return (e.id, tuple(reversed(attrs))) if isinstance(e, ast.Name) else None
+
+    def owned(self, e: Optional[ast.AST], at: Optional[int], elems: bool = False) -> bool:
+        """*e* (evaluated at CFG node *at*) can be the caller's object itself (elems=False) / a container whose
+        elements are the caller's objects (elems=True)."""
+        if e is None or at is None:
+            return False
+        key = (id(e), at, elems)
+        if key in self._busy:
+            return False
+        self._busy.add(key)
+        try:
+            return self._owned(e, at, elems)
+        finally:
+            self._busy.discard(key)
+
+    def _owned(self, e: ast.AST, at: int, elems: bool) -> bool:
+        if isinstance(e, ast.IfExp):
+            return self.owned(e.body, at, elems) or self.owned(e.orelse, at, elems)
+        if isinstance(e, ast.BoolOp):
+            return any(self.owned(v, at, elems) for v in e.values)
+        if isinstance(e, ast.NamedExpr):
+            return self.owned(e.value, at, elems)
+        if isinstance(e, ast.Starred):
+            return self.owned(e.value, at, elems)
+        ch = self._attr_chain(e)
+        if ch is not None and ch[0] == self.param and ch[1][:len(self.chain)] == self.chain and len(ch[1]) >= len(self.chain):
+            if not self.rebound or not reaching_defs(self.g, self.param, at):
+                return True
+        if elems:
+            if self.owned(e, at, False):
+                return True
+            if isinstance(e, ast.Call):
+                a = call_attr(e)
+                if a in _SHALLOW_COPIES and len(e.args) == 1:
+                    return self.owned(e.args[0], at, True)
+                if a in ("copy", "values", "items") and not e.args and isinstance(e.func, ast.Attribute):
+                    return self.owned(e.func.value, at, True)
+                if a == "enumerate" and e.args:
+                    return self.owned(e.args[0], at, True)
+                if a == "zip":
+                    return any(self.owned(x, at, True) for x in e.args)
+                return False
+            if isinstance(e, (ast.List, ast.Tuple, ast.Set)):
+                return any(self.owned(x, at, False) for x in e.elts)
+            if isinstance(e, ast.Dict):
+                return any(self.owned(x, at, False) for x in e.values if x is not None)
+            if isinstance(e, (ast.ListComp, ast.SetComp, ast.GeneratorExp)):
+                return self._comp_owned(e, e.elt, at)
+            if isinstance(e, ast.DictComp):
+                return self._comp_owned(e, e.value, at)
+        if isinstance(e, ast.Name):
+            for d in reaching_defs(self.g, e.id, at):
+                if d.kind == "stmt" and isinstance(d.ast, (ast.Assign, ast.AnnAssign)):
+                    for v in _value_for(d.ast, e.id):
+                        if self.owned(v, d.id, elems):
+                            return True
+                    if not _value_for(d.ast, e.id) and isinstance(d.ast, ast.Assign):  # a, b = pair
+                        if self.owned(d.ast.value, d.id, True):
+                            return True
+                elif d.kind == "for" and isinstance(d.ast, (ast.For, ast.AsyncFor)):
+                    # the loop variable is an element of what is iterated (for a pair: of what the pair is made of)
+                    if self.owned(d.ast.iter, d.id, True):
+                        return True
+            return False
+        if isinstance(e, ast.Attribute):
+            return self.owned(e.value, at, False)
+        if isinstance(e, ast.Subscript):
+            return self.owned(e.value, at, True)
+        if isinstance(e, ast.Call) and isinstance(e.func, ast.Attribute) and e.func.attr in ("get", "pop", "setdefault", "popitem", "__getitem__"):
+            return self.owned(e.func.value, at, True)
+        if isinstance(e, ast.Call) and call_attr(e) in ("cast",) and len(e.args) == 2:
+            return self.owned(e.args[1], at, elems)
+        if isinstance(e, ast.Call) and call_name(e) in ("next", "getattr") and e.args:
+            return self.owned(e.args[0], at, call_name(e) == "next")
+        return False
+
+    def _comp_owned(self, comp: ast.AST, elt: ast.AST, at: int) -> bool:
+        # [x for x in owned-elements]: the element expression is (an attribute / element of) a comprehension variable
+        names = {x.id for x in ast.walk(elt) if isinstance(x, ast.Name)}
+        for gen in comp.generators:
+            tg = {x.id for x in ast.walk(gen.target) if isinstance(x, ast.Name)}
+            if tg & names and not isinstance(elt, (ast.Call, ast.Dict, ast.List, ast.ListComp, ast.DictComp, ast.Constant, ast.JoinedStr)) and self.owned(gen.iter, at, True):
+                return True
+        return False
+
+
+def _write_sites(nf: ast.AST) -> List[Tuple[ast.AST, ast.AST]]:
+    """(statement or call, container written into) for attribute / element stores, deletes, augmented stores and mutator calls."""
+    from ..engine import MUTATORS
+
+    out: List[Tuple[ast.AST, ast.AST]] = []
+    for n in walk_no_nested(nf):
+        tgts: List[ast.AST] = []
+        if isinstance(n, ast.Assign):
+            tgts = list(n.targets)
+        elif isinstance(n, (ast.AugAssign, ast.AnnAssign)):
+            tgts = [n.target] if not (isinstance(n, ast.AnnAssign) and n.value is None) else []
+        elif isinstance(n, ast.Delete):
+            tgts = list(n.targets)
+        for t in tgts:
+            for el in (t.elts if isinstance(t, (ast.Tuple, ast.List)) else [t]):
+                if isinstance(el, (ast.Subscript, ast.Attribute)):
+                    out.append((n, el.value))
+        if isinstance(n, ast.Call):
+            if isinstance(n.func, ast.Attribute) and n.func.attr in MUTATORS:
+                out.append((n, n.func.value))
+            elif call_name(n) in ("setattr", "delattr") and n.args:
+                out.append((n, n.args[0]))
+    return out
+
+
+def parsed_block_intact_rules(repo: Repo, R: Report, run_nf: ast.AST, hashed: List[ast.AST], hash_calls: List[ast.AST]) -> None:
+    r_pi = R.rule("C09-D1-parsed-block-intact", "the run-space block is hashed as it was parsed: no package function that _run hands the parsed block (the object whose asdict() becomes run_space_spec_id - or a part / the holder of it) to before it is hashed writes into it or into anything reachable from it (a field, a list or mapping inside it; directly, through a local alias, a loop variable, or further down the calls).  Inspection hashes the block as the parser returned it, so a planner / validator that pops, clears or rewrites entries of the parsed specification makes run_space_start carry the id of another specification than `inspect` prints, and gives plans that differ only in the consumed entries the same id", 1)
+    cli_mod = repo.module(CLI)
+    g = CFG(run_nf)
+    idx: Dict[int, int] = {}
+    for n in g.nodes:
+        root = n.part if n.part is not None else (n.ast if n.kind == "stmt" else None)
+        if root is not None:
+            for y in ast.walk(root):
+                idx.setdefault(id(y), n.id)
+    hash_nodes = {idx[id(h)] for h in hash_calls if id(h) in idx}
+    if not hash_nodes or not hashed:
+        raise AnalysisError("_run: the statement hashing asdict(<parsed run space>) was not located in the control-flow graph")
+    protected = {ast.dump(o, include_attributes=False): o for h in hashed for o in _origins(run_nf, h) if isinstance(o, (ast.Attribute, ast.Name))}
+    if not protected:
+        raise AnalysisError("_run: the hashed run-space object is not a plain attribute / local")
+
+    def relation(arg: ast.AST) -> Optional[Tuple[str, ...]]:
+        """() when *arg* is the hashed object or a part of it; the attribute chain leading to it when *arg* is its holder."""
+        for a in _origins(run_nf, arg):
+            for p in protected.values():
+                x: ast.AST = a
+                while isinstance(x, (ast.Attribute, ast.Subscript)):  # a part of the protected object
+                    if _same(x, p):
+                        return ()
+                    x = x.value
+                if _same(x, p):
+                    return ()
+                chain: List[str] = []
+                y: ast.AST = p
+                while isinstance(y, ast.Attribute):  # its holder
+                    chain.append(y.attr)
+                    y = y.value
+                    if _same(y, a):
+                        return tuple(reversed(chain))
+        return None
+
+    seen: Set[Tuple[int, str, Tuple[str, ...]]] = set()
+    n_fn = 0
+
+    def analyse(mod, f: ast.AST, param: str, chain: Tuple[str, ...], via: str, depth: int) -> None:
+        nonlocal n_fn
+        key = (id(f), param, chain)
+        if key in seen:
+            return
+        seen.add(key)
+        nf = normalize(repo, mod, f)
+        if param not in _params(nf):
+            return
+        flow = _OwnedFlow(nf, param, chain)
+        qn = qualname_of(f)
+        n_fn += 1
+        clean = True
+        for site, container in _write_sites(nf):
+            at = flow.node_of(container)
+            if at is not None and flow.owned(container, at):
+                clean = False
+                R.violation(r_pi, mod.rel, _fn_at(mod, getattr(site, "lineno", 0), qn), norm(stmt_of(site) if not isinstance(site, ast.stmt) else site)[:100],
+                            f"writes into `{norm(container)[:50]}`, which is (part of) the parsed run-space block handed down {via}: _run hashes asdict() of that block afterwards ({CLI}:{hash_calls[0].lineno}), so run_space_spec_id in run_space_start (and the inputs id / key-derived launch id built on it) is the id of the modified specification - `semantiva inspect`, which parses the block and never runs this code, prints another id, and two specifications that differ only in what is consumed here get the same id",
+                            getattr(site, "lineno", nf.lineno))
+        if clean:
+            R.ok(r_pi, mod.rel, qn, f"{qn}({param}{''.join('.' + c for c in chain)}): no write reaches the parsed block")
+        if depth <= 0:
+            return
+        for c in calls_in(nf):
+            targets = [(m2, f2) for m2, f2 in repo.resolve_call(mod, c) if isinstance(f2, FuncNode)]
+            if len(targets) != 1:
+                continue
+            m2, f2 = targets[0]
+            b = _bind_args(f2, c, skip_first=_is_method(f2) and isinstance(c.func, ast.Attribute))
+            if b is None:
+                continue
+            at = flow.node_of(c)
+            for p2, a in b.items():
+                if at is not None and not isinstance(a, ast.Constant) and flow.owned(a, at):
+                    analyse(m2, f2, p2, (), f"{via} -> {qualname_of(f2)}({p2}=`{norm(a)[:30]}`)", depth - 1)
+
+    for c in calls_in(run_nf):
+        at = idx.get(id(c))
+        if at is None or any(c is h for h in hash_calls) or call_attr(c) in ("asdict",):
+            continue
+        if not (set(g.reach([at])) & hash_nodes):
+            continue  # cannot run before the block is hashed
+        targets = [(m2, f2) for m2, f2 in repo.resolve_call(cli_mod, c) if isinstance(f2, FuncNode)]
+        if len(targets) != 1:
+            continue
+        m2, f2 = targets[0]
+        b = _bind_args(f2, c, skip_first=_is_method(f2) and isinstance(c.func, ast.Attribute))
+        if b is None:
+            continue
+        for p2, a in b.items():
+            rel_ = relation(a) if not isinstance(a, ast.Constant) else None
+            if rel_ is not None:
+                analyse(m2, f2, p2, rel_, f"_run -> {qualname_of(f2)}({p2}=`{norm(a)[:40]}`)", 3)
+    if n_fn == 0:
+        raise AnalysisError("_run: no package function receives the parsed run-space block before it is hashed (the planner expand_run_space does today)")
+
+
+# ----------------------------------------------------------------------- D1 block location (sibling lookups)
+# A small symbolic evaluator: the value an expression has at a call site as an expression over the entry function's
+# parameters (locals substituted, if/else merged into conditional expressions, helpers of other modules followed), with
+# the branch conditions under which the site is reached - and an abstract evaluation of such expressions over the
+# possible shapes of a loaded configuration mapping.
+
+_MAPPING_TYPES = {"Mapping", "dict", "MutableMapping", "Dict", "OrderedDict", "CommentedMap"}
+_ABS = ("absent", "none", "emap", "nemap", "falsy", "truthy")
+_ABS_WORDS = {"absent": "absent", "none": "null", "emap": "an empty mapping", "nemap": "a non-empty mapping", "falsy": "an empty list / 0 / ''", "truthy": "a list / scalar"}
+
+
+class _SymCtx:
+    __slots__ = ("mod", "depth", "returns", "base")
+
+    def __init__(self, mod, depth: int, base: int):
+        self.mod, self.depth, self.returns, self.base = mod, depth, [], base
+
+
+def _stored_names(stmts: Iterable[ast.AST]) -> Set[str]:
+    out: Set[str] = set()
+    for st in stmts:
+        for n in ast.walk(st):
+            if isinstance(n, ast.Name) and isinstance(n.ctx, (ast.Store, ast.Del)):
+                out.add(n.id)
+            elif isinstance(n, (ast.FunctionDef, ast.AsyncFunctionDef, ast.ClassDef)):
+                out.add(n.name)
+            elif isinstance(n, (ast.Import, ast.ImportFrom)):
+                out.update((a.asname or a.name).split(".")[0] for a in n.names)
+    return out
+
+
+def _conj(conds: Tuple) -> Optional[ast.AST]:
+    parts = [clone(t) if truth else ast.UnaryOp(op=ast.Not(), operand=clone(t)) for t, truth in conds]
+    if not parts:
+        return None
+    return parts[0] if len(parts) == 1 else ast.BoolOp(op=ast.And(), values=parts)
+
+
+class _SymExec:
+    """Symbolic execution of structured code (assignments, if/else, early returns; loops / try bodies make what they
+    assign opaque).  ``hits``: (conditions, symbolic argument, call, module) for every call *is_target* accepts."""
+
+    def __init__(self, repo: Repo, is_target: Callable[[object, ast.Call], Optional[ast.AST]], keep: Iterable[str] = ()):
+        self.repo, self.is_target, self.keep = repo, is_target, tuple(keep)
+        self.hits: List[Tuple[Tuple, ast.AST, ast.Call, object]] = []
+        self.mutations: List[ast.AST] = []
+        self.call_values: Dict[int, ast.AST] = {}
+        self._n = 0
+        self._busy: Set[int] = set()
+
+    def opaque(self, hint: str) -> ast.AST:
+        self._n += 1
+        return ast.Name(id=f"?{hint}#{self._n}", ctx=ast.Load())
+
+    # -- substitution
+    def S(self, e: Optional[ast.AST], env: Dict[str, ast.AST], shadow: frozenset = frozenset()) -> Optional[ast.AST]:
+        """Copy of *e* with the locals of *env* replaced by their symbolic values (and followed calls by what they return)."""
+        if e is None:
+            return None
+        if isinstance(e, ast.Name):
+            if isinstance(e.ctx, ast.Load) and e.id in env and e.id not in shadow:
+                return clone(env[e.id])
+            return clone(e)
+        if isinstance(e, ast.Call) and id(e) in self.call_values:
+            return clone(self.call_values[id(e)])
+        if isinstance(e, ast.Lambda):
+            shadow = shadow | frozenset(_params(e))
+        elif isinstance(e, (ast.ListComp, ast.SetComp, ast.DictComp, ast.GeneratorExp)):
+            shadow = shadow | frozenset(x.id for g in e.generators for x in ast.walk(g.target) if isinstance(x, ast.Name))
+        new = e.__class__()
+        for f in e._fields:
+            if not hasattr(e, f):
+                continue
+            v = getattr(e, f)
+            if isinstance(v, ast.AST):
+                v = self.S(v, env, shadow)
+            elif isinstance(v, list):
+                v = [self.S(x, env, shadow) if isinstance(x, ast.AST) else x for x in v]
+            setattr(new, f, v)
+        for a in e._attributes:
+            if hasattr(e, a):
+                setattr(new, a, getattr(e, a))
+        return new
+
+    # -- statements
+    def run(self, mod, nf: ast.AST, env: Dict[str, ast.AST], conds: Tuple, depth: int) -> _SymCtx:
+        ctx = _SymCtx(mod, depth, len(conds))
+        self._exec(list(nf.body), env, conds, ctx)
+        return ctx
+
+    def _exec(self, stmts, env, conds, ctx):
+        for st in stmts:
+            r = self._stmt(st, env, conds, ctx)
+            if r is None:
+                return None
+            env, conds = r
+        return env, conds
+
+    def _bind(self, t: ast.AST, v: ast.AST, env: Dict[str, ast.AST]) -> None:
+        if isinstance(t, ast.Name):
+            env[t.id] = v
+        elif isinstance(t, (ast.Tuple, ast.List)):
+            for i, el in enumerate(t.elts):
+                if isinstance(el, ast.Starred):
+                    self._bind(el.value, self.opaque("star"), env)
+                elif isinstance(v, (ast.Tuple, ast.List)) and len(v.elts) == len(t.elts) and not any(isinstance(x, ast.Starred) for x in v.elts):
+                    self._bind(el, v.elts[i], env)
+                else:
+                    self._bind(el, ast.Subscript(value=clone(v), slice=ast.Constant(value=i), ctx=ast.Load()), env)
+        elif isinstance(t, (ast.Attribute, ast.Subscript)):
+            self.mutations.append(self.S(t.value, env))
+
+    def _opaque_all(self, env, names: Iterable[str]) -> None:
+        for n in names:
+            env[n] = self.opaque(n)
+
+    def _merge(self, live: List[Tuple[Dict[str, ast.AST], Tuple]], test: Optional[ast.AST], conds: Tuple):
+        if not live:
+            return None
+        if len(live) == 1:
+            return live[0]
+        env: Dict[str, ast.AST] = {}
+        for n in {k for e, _c in live for k in e}:
+            vals = [e.get(n, ast.Name(id=n, ctx=ast.Load())) for e, _c in live]
+            if all(v is vals[0] or _same(vals[0], v) for v in vals[1:]):
+                env[n] = vals[0]
+            elif test is not None and len(vals) == 2:
+                env[n] = ast.IfExp(test=clone(test), body=vals[0], orelse=vals[1])
+            else:
+                env[n] = self.opaque(n)
+        return env, conds
+
+    def _stmt(self, st, env, conds, ctx):
+        if isinstance(st, (ast.Assign, ast.AnnAssign)):
+            if st.value is None:
+                return env, conds
+            self._scan(st.value, env, conds, ctx)
+            v = self.S(st.value, env)
+            for t in (st.targets if isinstance(st, ast.Assign) else [st.target]):
+                self._bind(t, v, env)
+            return env, conds
+        if isinstance(st, ast.AugAssign):
+            self._scan(st.value, env, conds, ctx)
+            if isinstance(st.target, ast.Name):
+                env[st.target.id] = self.opaque(st.target.id)
+            else:
+                self.mutations.append(self.S(st.target.value, env))
+            return env, conds
+        if isinstance(st, ast.Expr):
+            self._scan(st.value, env, conds, ctx)
+            from ..engine import MUTATORS
+            for c in ast.walk(st.value):
+                if isinstance(c, ast.Call) and isinstance(c.func, ast.Attribute) and c.func.attr in MUTATORS:
+                    self.mutations.append(self.S(c.func.value, env))
+            return env, conds
+        if isinstance(st, ast.If):
+            self._scan(st.test, env, conds, ctx)
+            t = self.S(st.test, env)
+            rb = self._exec(st.body, dict(env), conds + ((t, True),), ctx)
+            re_ = self._exec(st.orelse, dict(env), conds + ((t, False),), ctx)
+            if rb is not None and re_ is not None:
+                return self._merge([rb, re_], t, conds)
+            return rb if rb is not None else re_
+        if isinstance(st, ast.Return):
+            self._scan(st.value, env, conds, ctx)
+            ctx.returns.append((conds, self.S(st.value, env) if st.value is not None else ast.Constant(value=None)))
+            return None
+        if isinstance(st, ast.Raise):
+            self._scan(st.exc, env, conds, ctx)
+            return None
+        if isinstance(st, (ast.Break, ast.Continue)):
+            return None
+        if isinstance(st, (ast.For, ast.AsyncFor, ast.While)):
+            self._scan(st.iter if not isinstance(st, ast.While) else st.test, env, conds, ctx)
+            assigned = _stored_names([st])
+            self._opaque_all(env, assigned)
+            self._exec(st.body, dict(env), conds, ctx)
+            self._exec(st.orelse, dict(env), conds, ctx)
+            self._opaque_all(env, assigned)
+            return env, conds
+        if isinstance(st, (ast.Try, getattr(ast, "TryStar", ast.Try))):
+            in_body = _stored_names(st.body)
+            live = []
+            r = self._exec(st.body, dict(env), conds, ctx)
+            if r is not None:
+                r = self._exec(st.orelse, r[0], r[1], ctx)
+            if r is not None:
+                live.append(r)
+            for h in st.handlers:
+                eh = dict(env)
+                self._opaque_all(eh, in_body | ({h.name} if h.name else set()))
+                rh = self._exec(h.body, eh, conds, ctx)
+                if rh is not None:
+                    live.append(rh)
+            m = self._merge(live, None, conds)
+            if m is None:
+                self._exec(st.finalbody, dict(env), conds, ctx)
+                return None
+            return self._exec(st.finalbody, m[0], m[1], ctx)
+        if isinstance(st, (ast.With, ast.AsyncWith)):
+            for it in st.items:
+                self._scan(it.context_expr, env, conds, ctx)
+                if it.optional_vars is not None:
+                    self._opaque_all(env, _stored_names([it.optional_vars]))
+            return self._exec(st.body, env, conds, ctx)
+        if isinstance(st, ast.Assert):
+            self._scan(st.test, env, conds, ctx)
+            return env, conds + ((self.S(st.test, env), True),)
+        if isinstance(st, (ast.Import, ast.ImportFrom)):
+            for n in _stored_names([st]):
+                env.pop(n, None)
+            return env, conds
+        if isinstance(st, (ast.Pass, ast.Global, ast.Nonlocal)):
+            return env, conds
+        # def / class / del / match / anything else: what it binds is unknown from here on
+        assigned = _stored_names([st])
+        self._opaque_all(env, assigned)
+        for sub in ast.iter_child_nodes(st):
+            if isinstance(sub, ast.match_case) if hasattr(ast, "match_case") else False:
+                self._exec(sub.body, dict(env), conds, ctx)
+        self._opaque_all(env, assigned)
+        return env, conds
+
+    # -- expressions: target calls and calls into the package
+    def _scan(self, e, env, conds, ctx) -> None:
+        if e is None:
+            return
+        if isinstance(e, ast.IfExp):
+            self._scan(e.test, env, conds, ctx)
+            t = self.S(e.test, env)
+            self._scan(e.body, env, conds + ((t, True),), ctx)
+            self._scan(e.orelse, env, conds + ((t, False),), ctx)
+            return
+        if isinstance(e, ast.BoolOp):
+            acc = conds
+            for v in e.values:
+                self._scan(v, env, acc, ctx)
+                acc = acc + ((self.S(v, env), isinstance(e.op, ast.And)),)
+            return
+        for ch in ast.iter_child_nodes(e):
+            self._scan(ch, env, conds, ctx)
+        if isinstance(e, ast.Call):
+            arg = self.is_target(ctx.mod, e)
+            if arg is not None:
+                self.hits.append((conds, self.S(arg, env), e, ctx.mod))
+            else:
+                self._descend(e, env, conds, ctx)
+
+    def _descend(self, call: ast.Call, env, conds, ctx) -> None:
+        if ctx.depth <= 0:
+            return
+        targets = [(m, f) for m, f in self.repo.resolve_call(ctx.mod, call) if isinstance(f, FuncNode)]
+        if len(targets) != 1 or id(targets[0][1]) in self._busy:
+            return
+        m, f = targets[0]
+        b = _bind_args(f, call, skip_first=_is_method(f) and isinstance(call.func, ast.Attribute))
+        if b is None:
+            return
+        args = {p: self.S(a, env) for p, a in b.items()}
+        if not any(isinstance(x, ast.Name) for a in args.values() for x in ast.walk(a)):
+            return  # nothing of the caller's flows in
+        self._busy.add(id(f))
+        try:
+            sub = self.run(m, normalize(self.repo, m, f, keep=self.keep), args, conds, ctx.depth - 1)
+        finally:
+            self._busy.discard(id(f))
+        if not sub.returns:
+            return
+        val = sub.returns[-1][1]
+        for cs, v in reversed(sub.returns[:-1]):
+            test = _conj(cs[sub.base:])
+            val = v if test is None else ast.IfExp(test=test, body=v, orelse=val)
+        self.call_values[id(call)] = val
+
+
+class _Need(Exception):
+    def __init__(self, key):
+        self.key = key
+
+
+class _EvalErr(Exception):
+    pass
+
+
+class _ShapeEval:
+    """Abstract evaluation of a symbolic expression over the shapes of the mapping *root*: every key path read from it
+    has one of `_ABS` (absent / null / empty mapping / non-empty mapping / other falsy / other truthy)."""
+
+    def __init__(self, root: str, assign: Dict[Tuple, str]):
+        self.root, self.assign = root, assign
+
+    def val(self, path: Tuple) -> str:
+        if not path:
+            return "nemap"
+        if self.val(path[:-1]) != "nemap":
+            return "absent"
+        if path not in self.assign:
+            raise _Need(path)
+        return self.assign[path]
+
+    @staticmethod
+    def truth(x) -> Optional[bool]:
+        if x[0] == "b":
+            return x[1]
+        if x[0] == "v":
+            return x[2] in ("nemap", "truthy")
+        return None
+
+    def struct(self, e: ast.AST) -> ast.AST:
+        while isinstance(e, ast.IfExp):
+            t = self.tv(e.test)
+            if t is None:
+                return e
+            e = e.body if t else e.orelse
+        return e
+
+    def tv(self, e: ast.AST) -> Optional[bool]:
+        if isinstance(e, ast.UnaryOp) and isinstance(e.op, ast.Not):
+            r = self.tv(e.operand)
+            return None if r is None else not r
+        if isinstance(e, ast.BoolOp):
+            stop = isinstance(e.op, ast.Or)
+            unknown = False
+            for v in e.values:
+                try:
+                    r = self.tv(v)
+                except _EvalErr:
+                    if unknown:
+                        return None
+                    raise
+                if r is None:
+                    unknown = True
+                elif r == stop:
+                    return None if unknown else stop
+            return None if unknown else not stop
+        if isinstance(e, ast.Compare) and len(e.ops) == 1:
+            op, right = e.ops[0], e.comparators[0]
+            if isinstance(op, (ast.Is, ast.IsNot, ast.Eq, ast.NotEq)) and (_is_none(right) or _is_none(e.left)):
+                x = self.ev(e.left if _is_none(right) else right)
+                if x[0] == "b":
+                    isnone = False
+                elif x[0] == "v":
+                    isnone = x[2] in ("absent", "none")
+                else:
+                    return None
+                return isnone == isinstance(op, (ast.Is, ast.Eq))
+            if isinstance(op, (ast.In, ast.NotIn)) and isinstance(e.left, ast.Constant):
+                m = self.ev(right)
+                if m[0] == "v" and m[2] in ("emap", "nemap") and m[1] is not None and m[1][:1] != ("#",):
+                    has = m[2] == "nemap" and self.val(m[1] + (e.left.value,)) != "absent"
+                    return has == isinstance(op, ast.In)
+                if m[0] == "v" and m[2] in ("none", "absent"):
+                    raise _EvalErr()
+                return None
+            return None
+        if isinstance(e, ast.Call) and call_name(e) == "isinstance" and len(e.args) == 2:
+            ts = e.args[1].elts if isinstance(e.args[1], ast.Tuple) else [e.args[1]]
+            names = {(dotted_name(t) or "?").split(".")[-1] for t in ts}
+            x = self.ev(e.args[0])
+            if x[0] != "v":
+                return None
+            ismap = x[2] in ("emap", "nemap")
+            if names <= _MAPPING_TYPES:
+                return ismap
+            if not (names & _MAPPING_TYPES):
+                return False if (ismap or x[2] in ("none", "absent")) and "NoneType" not in names and "object" not in names else None
+            return True if ismap else None
+        if isinstance(e, ast.Call) and call_name(e) == "bool" and len(e.args) == 1:
+            return self.tv(e.args[0])
+        return self.truth(self.ev(e))
+
+    def ev(self, e: ast.AST):
+        if isinstance(e, ast.Name):
+            return ("v", (), "nemap") if e.id == self.root else ("u", e)
+        if isinstance(e, ast.Constant):
+            if e.value is None:
+                return ("v", None, "none")
+            if isinstance(e.value, bool):
+                return ("b", e.value)
+            return ("v", ("#", repr(e.value)), "truthy" if e.value else "falsy")
+        if isinstance(e, ast.Dict):
+            return ("v", None, "emap") if not e.keys else ("v", ("#", ast.dump(e)), "nemap")
+        if isinstance(e, ast.IfExp):
+            t = self.tv(e.test)
+            if t is None:
+                a, b = self.ev(e.body), self.ev(e.orelse)
+                return a if a == b else ("u", e)
+            return self.ev(e.body if t else e.orelse)
+        if isinstance(e, ast.BoolOp):
+            stop = isinstance(e.op, ast.Or)
+            for v in e.values[:-1]:
+                x = self.ev(v)
+                t = self.truth(x)
+                if t is None:
+                    return ("u", e)
+                if t == stop:
+                    return x
+            return self.ev(e.values[-1])
+        if isinstance(e, (ast.UnaryOp, ast.Compare)):
+            t = self.tv(e)
+            return ("u", e) if t is None else ("b", t)
+        if isinstance(e, ast.Subscript) and isinstance(e.slice, ast.Constant) and type(e.slice.value) is int:
+            s = self.struct(e.value)
+            if isinstance(s, (ast.Tuple, ast.List)) and -len(s.elts) <= e.slice.value < len(s.elts):
+                return self.ev(s.elts[e.slice.value])
+            return ("u", e)
+        k = _keyed(e)
+        if k is not None and isinstance(k[1], str):
+            m = self.ev(k[0])
+            if m[0] != "v":
+                return ("u", e)
+            if m[2] not in ("emap", "nemap"):
+                raise _EvalErr()
+            if m[1] is None or m[1][:1] == ("#",):
+                return ("u", e)
+            v = self.val(m[1] + (k[1],)) if m[2] == "nemap" else "absent"
+            if v == "absent":
+                if isinstance(e, ast.Subscript):
+                    raise _EvalErr()
+                return self.ev(e.args[1]) if len(e.args) > 1 else ("v", None, "none")
+            return ("v", m[1] + (k[1],), v)
+        inner = _copied_operand(e) if isinstance(e, ast.Call) else None
+        if inner is None and isinstance(e, ast.Call) and call_attr(e) == "cast" and len(e.args) == 2:
+            return self.ev(e.args[1])
+        if inner is not None:
+            x = self.ev(inner)
+            if x[0] == "v" and x[2] in ("emap", "nemap"):
+                return x
+            if x[0] == "v" and x[2] in ("none", "absent"):
+                raise _EvalErr()
+            return ("u", e)
+        return ("u", e)
+
+
+def _enumerate_shapes(compute: Callable[[Dict[Tuple, str]], object], limit: int = 20000):
+    """Every assignment of shapes to the key paths *compute* reads (forked lazily), with its result."""
+    todo: List[Dict[Tuple, str]] = [{}]
+    n = 0
+    while todo:
+        assign = todo.pop()
+        n += 1
+        if n > limit:
+            raise AnalysisError("block location: too many configuration shapes to enumerate")
+        try:
+            out = compute(assign)
+        except _Need as need:
+            for v in _ABS:
+                todo.append({**assign, need.key: v})
+            continue
+        yield assign, out
+
+
+def _is_root_path(e: ast.AST, root: str) -> bool:
+    if isinstance(e, ast.Name):
+        return e.id == root
+    if isinstance(e, ast.IfExp):
+        return _is_root_path(e.body, root) or _is_root_path(e.orelse, root)
+    if isinstance(e, ast.BoolOp):
+        return any(_is_root_path(v, root) for v in e.values)
+    k = _keyed(e)
+    return k is not None and _is_root_path(k[0], root)
+
+
+def _fn_at(mod, line: int, default: str) -> str:
+    best = None
+    for n in ast.walk(mod.tree):
+        if isinstance(n, FuncNode) and n.lineno <= line <= (getattr(n, "end_lineno", n.lineno) or n.lineno):
+            if best is None or n.lineno >= best.lineno:
+                best = n
+    return qualname_of(best) if best is not None else default
+
+
+def block_location_rules(repo: Repo, R: Report, ppc, parser_fn: ast.AST, block_param: str, builder_mod) -> None:
+    """Both sides hand *a* block of the loaded configuration to the same parser: it has to be the same block.  The value each
+    side passes as the block is computed symbolically as an expression over the configuration mapping (locals substituted,
+    helpers inlined / followed, if/else and early returns merged, with the conditions under which the parser call is
+    reached) and the two expressions are compared on every shape of configuration: each key path either side reads is
+    absent / null / an empty mapping / a non-empty mapping / something else."""
+    r_bl = R.rule("C09-D1-block-location-agreement", "the configuration parser (parse_pipeline_config, the run path) and inspection (build_inspection_payload) locate the run-space block of a loaded configuration by the same lookup - same keys, same order of preference, same fallback condition: for every shape of configuration (each key either side reads absent / null / empty mapping / non-empty mapping / other) in which one side hands a non-empty mapping to the block parser, the other side hands over the mapping found under the same key path; otherwise `inspect` prints the spec id of another block than the launch plans from and records in run_space_start (or none at all)", 1)
+    pmod, pfn = ppc
+    keep = (parser_fn.name,)
+
+    def is_target(mod, call: ast.Call) -> Optional[ast.AST]:
+        if not any(f is parser_fn for _m, f in repo.resolve_call(mod, call)):
+            return None
+        b = _bind_args(parser_fn, call, skip_first=False)
+        return b.get(block_param) if b else None
+
+    def side(mod, fn: ast.AST, what: str):
+        nf = normalize(repo, mod, fn, keep=keep)
+        # private helpers of the module are inlined by the normal form; calls into other modules are followed only when
+        # the parser call is not found without them or the located value is what such a call returns
+        ex = _SymExec(repo, is_target, keep=keep)
+        ex.run(mod, nf, {}, (), 0)
+        if not ex.hits or any(isinstance(c, ast.Call) and any(isinstance(f, FuncNode) for _m, f in repo.resolve_call(m, c)) for _c, v, _call, m in ex.hits for c in ast.walk(v)):
+            ex = _SymExec(repo, is_target, keep=keep)
+            ex.run(mod, nf, {}, (), 2)
+        if not ex.hits:
+            raise AnalysisError(f"{what}: no call of the block parser {parser_fn.name} is reached from it")
+        params = set(_params(nf))
+        roots = {x.id for _c, v, _call, _m in ex.hits for x in ast.walk(v) if isinstance(x, ast.Name) and x.id in params}
+        if len(roots) != 1:
+            raise AnalysisError(f"{what}: the block handed to {parser_fn.name} is not read from one parameter ({sorted(roots)})")
+        root = next(iter(roots))
+        for m in ex.mutations:
+            if m is not None and _is_root_path(m, root):
+                raise AnalysisError(f"{what}: writes into the configuration mapping (`{norm(m)[:50]}`) before locating the run-space block - not modelled")
+        return ex.hits, root
+
+    hits_r, root_r = side(pmod, pfn, f"{pmod.rel}:{qualname_of(pfn)}")
+    bip = repo.func(BUILDER, "build_inspection_payload")
+    hits_i, root_i = side(builder_mod, bip, f"{BUILDER}:build_inspection_payload")
+
+    def paths_of(e: ast.AST, root: str) -> Set[Tuple]:
+        out: Set[Tuple] = set()
+
+        def path(x: ast.AST) -> Optional[Tuple]:
+            if isinstance(x, ast.Name):
+                return () if x.id == root else None
+            k = _keyed(x)
+            if k is None or not isinstance(k[1], str):
+                return None
+            p = path(k[0])
+            return None if p is None else p + (k[1],)
+        for x in ast.walk(e):
+            p = path(x)
+            if p:
+                out.add(p)
+            if isinstance(x, ast.Compare) and len(x.ops) == 1 and isinstance(x.ops[0], (ast.In, ast.NotIn)) and isinstance(x.left, ast.Constant) and isinstance(x.left.value, str):
+                p = path(x.comparators[0])
+                if p is not None:
+                    out.add(p + (x.left.value,))
+        return out
+    # a condition on keys that neither side's block expression reads (the execution / trace sections ...) is independent of
+    # where the block is found: only the conditions that share a key path with the located values are evaluated
+    value_paths = {p for hits, root in ((hits_r, root_r), (hits_i, root_i)) for _c, v, _call, _m in hits for p in paths_of(v, root)}
+    if not value_paths:
+        raise AnalysisError("block location: the block handed to the parser is not read out of the configuration mapping by constant keys")
+
+    hits_r = [(tuple(ct for ct in conds if paths_of(ct[0], root_r) & value_paths), v, call, m) for conds, v, call, m in hits_r]
+    hits_i = [(tuple(ct for ct in conds if paths_of(ct[0], root_i) & value_paths), v, call, m) for conds, v, call, m in hits_i]
+
+    def outcome(sev: _ShapeEval, hits):
+        maybe = None
+        for conds, v, call, m in hits:
+            reach: Optional[bool] = True
+            try:
+                for t, truth in conds:
+                    r = sev.tv(t)
+                    if r is None:
+                        reach = None
+                    elif r != truth:
+                        reach = False
+                        break
+            except _EvalErr:
+                reach = False
+            if reach is False:
+                continue
+            try:
+                val = sev.ev(v)
+            except _EvalErr:
+                val = ("err",)
+            if reach is True:
+                return (True, val, v, call, m)
+            if maybe is None:
+                maybe = (None, val, v, call, m)
+        return maybe or (False, None, None, None, None)
+
+    def compute(assign):
+        rr = outcome(_ShapeEval(root_r, assign), hits_r)
+        if rr[0] is False or rr[1] == ("err",):
+            return None  # the run path rejects this configuration: nothing to compare with
+        return rr, outcome(_ShapeEval(root_i, assign), hits_i)
+
+    def block_of(o) -> Optional[Tuple]:
+        return o[1][1] if o[0] is not False and o[1] is not None and o[1][0] == "v" and o[1][2] == "nemap" else None
+
+    unknown: List[ast.AST] = []
+    witnesses: List[Tuple] = []
+    n = 0
+    for assign, out in _enumerate_shapes(compute):
+        if out is None:
+            continue
+        n += 1
+        rr, ri = out
+        u = [o[1][1] for o in (rr, ri) if o[0] is not False and o[1] is not None and o[1][0] == "u"]
+        if u:
+            unknown.extend(u)
+            continue
+        br, bi = block_of(rr), block_of(ri)
+        if (br is not None or bi is not None) and br != bi:
+            witnesses.append((assign, rr, ri, br, bi))
+    if n == 0:
+        raise AnalysisError("block location: no configuration shape reaches the block parser on the run path")
+
+    def show_path(p: Optional[Tuple]) -> str:
+        if p is None:
+            return "no block"
+        return "`" + ".".join(str(x) for x in p) + "`" if p[:1] != ("#",) else "a mapping built in place"
+    stmt = "the run-space block handed to the block parser is found under the same keys on both sides"
+    qn_i = "build_inspection_payload"
+    if witnesses:
+        assign, rr, ri, br, bi = min(witnesses, key=lambda w: (0 if w[3] is not None and w[4] is not None else 1, sum(1 for v in w[0].values() if v in ("falsy", "none", "emap")),
+                                                               sum(1 for v in w[0].values() if v != "absent"), len(w[0]), sorted(w[0].items())))
+        shape = ", ".join(f"`{'.'.join(k)}` {_ABS_WORDS[v]}" for k, v in sorted(assign.items()) if v != "absent" or len(k) == 1)
+        # the lookup inspection ends up with (or the one it lacks)
+        loc_expr = ri[2] if ri[2] is not None else hits_i[0][1]
+        imod = ri[4] or hits_i[0][3] or builder_mod
+        line = getattr(ri[3] if ri[3] is not None else hits_i[0][2], "lineno", None) or bip.lineno
+        want = (bi or br)[-1]
+        ks = [x for x in ast.walk(loc_expr) if (_keyed(x) or (None, None))[1] == want and hasattr(x, "lineno")]
+        if ks:
+            line = max(x.lineno for x in ks)
+            stmt = f"run-space block lookup `{norm(max(ks, key=lambda x: x.lineno))[:90]}`"
+        else:
+            stmt = f"run-space block located as `{norm(loc_expr)[:90]}`"
+        qn_i = _fn_at(imod, line, qn_i)
+        R.violation(r_bl, imod.rel, qn_i, stmt,
+                    f"for a configuration with {shape}: the run path ({pmod.rel}:{getattr(rr[3], 'lineno', pfn.lineno)}) parses {show_path(br)} "
+                    f"(`{norm(rr[2])[:80]}`) while inspection hashes {show_path(bi)}: `semantiva inspect` prints "
+                    f"{'no run-space spec id' if bi is None else 'the spec id of another block'} for a file whose launch plans from - and records in run_space_start the id of - {show_path(br) if br is not None else 'the default (empty) run space'}",
+                    line)
+        return
+    if unknown:
+        raise AnalysisError(f"block location: the value of `{norm(unknown[0])[:80]}` is not decided by the lookup model (.get / [..] / is None / isinstance / in / or-defaults)")
+    R.ok(r_bl, BUILDER, qn_i, stmt)
 
 
 # ----------------------------------------------------------------------------------------- D2 launch bracket
@@ -2448,6 +3324,225 @@ def _origins_attr_terminal(fn: ast.AST, e: Optional[ast.AST]) -> List[ast.AST]:
     return out
 
 
+# ------------------------------------------------------------------------ D4 the fingerprint uri is canonical
+def _canonical_path(g: CFG, nf: ast.AST, e: Optional[ast.AST], at: Optional[int], param_ok: Callable[[str], bool], seen: Optional[Set[Tuple[int, int]]] = None, attr_ok=None) -> Tuple[bool, Optional[ast.AST]]:
+    """(True, None) when *e* (evaluated at CFG node *at*) is a path with symlinks and `..` resolved on every way it can be
+    produced - `.resolve()` / os.path.realpath applied, then at most steps that keep a canonical path canonical (`.parent`,
+    Path(..), expanduser, absolute) - else (False, the expression that is not).  A parameter is asked of *param_ok*."""
+    seen = set() if seen is None else seen
+    if e is None or at is None:
+        return False, e
+    if (id(e), at) in seen:
+        return True, None
+    seen.add((id(e), at))
+    rec = lambda x, a=at: _canonical_path(g, nf, x, a, param_ok, seen, attr_ok)  # noqa: E731
+    if _is_none(e):
+        return True, None  # no path at all
+    if isinstance(e, ast.IfExp):
+        for b in (e.body, e.orelse):
+            ok, why = rec(b)
+            if not ok:
+                return ok, why
+        return True, None
+    if isinstance(e, ast.BoolOp):
+        for v in e.values:
+            ok, why = rec(v)
+            if not ok:
+                return ok, why
+        return True, None
+    if isinstance(e, ast.Call):
+        a = call_attr(e)
+        if a == "resolve" and isinstance(e.func, ast.Attribute):
+            return True, None
+        if call_name(e) in ("os.path.realpath", "realpath"):
+            return True, None
+        if a in ("expanduser", "absolute", "with_suffix", "with_name") and isinstance(e.func, ast.Attribute) and not e.args:
+            return rec(e.func.value)
+        if a in ("Path", "PurePath", "PosixPath", "str", "fspath", "cast") and e.args:
+            return rec(e.args[-1] if a == "cast" else e.args[0]) if len(e.args) == (2 if a == "cast" else 1) else (False, e)
+        if a in ("dirname",) and e.args:
+            return rec(e.args[0])
+        return False, e
+    if isinstance(e, ast.Attribute) and e.attr in ("parent",):
+        return rec(e.value)
+    if isinstance(e, ast.Attribute) and attr_ok is not None:
+        got = attr_ok(e, at)
+        if got is not None:
+            return got
+    if isinstance(e, ast.Name):
+        defs = reaching_defs(g, e.id, at)
+        if not defs:
+            return (True, None) if e.id in _params(nf) and param_ok(e.id) else (False, e)
+        for d in defs:
+            vals = _value_for(d.ast, e.id) if d.kind == "stmt" else []
+            if not vals:
+                return False, e
+            for v in vals:
+                ok, why = _canonical_path(g, nf, v, d.id, param_ok, seen, attr_ok)
+                if not ok:
+                    return ok, why
+        return True, None
+    return False, e
+
+
+def _node_index(g: CFG) -> Dict[int, int]:
+    idx: Dict[int, int] = {}
+    for n in g.nodes:
+        root = n.part if n.part is not None else (n.ast if n.kind == "stmt" else None)
+        if root is not None:
+            for y in ast.walk(root):
+                idx.setdefault(id(y), n.id)
+    return idx
+
+
+def _returned_field_sources(repo: Repo, mod, call: ast.Call, attr: str) -> Optional[List[ast.AST]]:
+    """The arguments of *call* (a package function returning an object it constructs) that the object's attribute *attr*
+    is built from; None when that cannot be established."""
+    t = [x for x in repo.resolve_call(mod, call) if isinstance(x[1], FuncNode)]
+    if len(t) != 1:
+        return None
+    fm, f = t[0]
+    outer = _bind_args(f, call, skip_first=_is_method(f) and isinstance(call.func, ast.Attribute))
+    if outer is None:
+        return None
+    nf = normalize(repo, fm, f, inline=False)
+    out: List[ast.AST] = []
+    found = False
+    for r in [r for r in walk_no_nested(nf) if isinstance(r, ast.Return) and r.value is not None]:
+        for c in [o for o in _origins(nf, r.value) if isinstance(o, ast.Call)]:
+            rr = repo.resolve_name(fm, c.func, c) if isinstance(c.func, (ast.Name, ast.Attribute)) else None
+            if rr is None or not isinstance(rr[1], ast.ClassDef):
+                return None
+            init = repo.method(rr[0], rr[1], "__init__")
+            if init is not None and isinstance(init[1], FuncNode):
+                b = _bind_args(init[1], c, skip_first=True)
+                pos = init[1].args.posonlyargs + init[1].args.args
+                if b is None or not pos:
+                    return None
+                vals = _object_stores(repo, init[0], init[1], pos[0].arg, rr).get(attr, [])
+                holders = {x.id for v in vals for x in ast.walk(v) if isinstance(x, ast.Name) and x.id in b}
+                inner = [b[h] for h in sorted(holders)]
+            else:
+                v = kwarg(c, attr)
+                inner = [v] if v is not None else []
+            if not inner:
+                return None
+            found = True
+            for a in inner:  # expressed in the callee's locals: back to its parameters, then to the caller's arguments
+                for o in _origins(nf, a):
+                    names = [x.id for x in ast.walk(o) if isinstance(x, ast.Name) and x.id in outer]
+                    if isinstance(o, ast.Name) and o.id in outer:
+                        out.append(outer[o.id])
+                    elif _is_none(o):
+                        continue
+                    elif names:
+                        return None
+                    else:
+                        return None
+    return out if found else None
+
+
+def canonical_uri_rules(repo: Repo, R: Report, ident_fns: List[ast.AST]) -> None:
+    r_cu = R.rule("C09-D4-canonical-input-uri", "the uri of a referenced file that goes into the inputs id (and through it into the key-derived launch id) names the file, not the way the launch was spelled: the path it is rendered from has symlinks and `..` resolved - either the fingerprinting function resolves the joined path itself, or the base directory it joins the path of the specification onto is resolved on every way it gets there (the pipeline path in _run, the base directory stored in the parsed configuration).  Otherwise `semantiva run sub/../p.yaml` and `semantiva run p.yaml` (or a run through a symlinked directory) give the same files with the same content another run_space_inputs_id, and the same idempotency key another launch id", 1)
+    ident_mod = repo.module(IDENT)
+    cli_mod = repo.module(CLI)
+    uri_fns = [f for f in ident_fns if any(call_attr(c) == "as_uri" for c in calls_in(f))]
+    if not uri_fns:
+        raise AnalysisError("run_space_identity: no function reachable from RunSpaceIdentityService.compute renders a path as a uri (.as_uri())")
+    run_nf = nfunc(repo, CLI, "_run")
+
+    def callers_ok(f: ast.AST, param: str, depth: int) -> Tuple[bool, str]:
+        """Every value that reaches parameter *param* of *f* is a canonical path."""
+        if depth <= 0:
+            return False, f"`{param}` of {qualname_of(f)} (call chain too deep to follow)"
+        sites: List[Tuple[object, ast.AST, ast.Call]] = []
+        for cf in ident_fns:
+            for c in calls_in(cf):
+                if any(t is f for _m, t in repo.resolve_call(ident_mod, c)):
+                    sites.append((ident_mod, cf, c))
+        for c in calls_in(run_nf):
+            if call_attr(c) == f.name and isinstance(c.func, ast.Attribute) and _ctor_of(run_nf, c.func.value, "RunSpaceIdentityService"):
+                sites.append((cli_mod, None, c))
+        if not sites:
+            return False, f"`{param}` of {qualname_of(f)} (no call site found)"
+        for m, cf, c in sites:
+            nf = run_nf if cf is None else normalize(repo, m, cf, inline=False)
+            if cf is not None:  # the call inside the normal form
+                c2 = [x for x in calls_in(nf) if call_attr(x) == call_attr(c) and x.lineno == c.lineno]
+                if len(c2) != 1:
+                    return False, f"call of {f.name} in {qualname_of(cf)} not found in its normal form"
+                c = c2[0]
+            b = _bind_args(f, c, skip_first=_is_method(f) and isinstance(c.func, ast.Attribute))
+            if b is None or param not in b:
+                return False, f"`{norm(c)[:50]}` cannot be bound"
+            g = CFG(nf)
+            at = _node_index(g).get(id(c))
+            ok, why = expr_ok(m, nf, g, b[param], at, cf, depth)
+            if not ok:
+                return False, why
+        return True, ""
+
+    def expr_ok(m, nf: ast.AST, g: CFG, e: ast.AST, at: Optional[int], owner: Optional[ast.AST], depth: int) -> Tuple[bool, str]:
+        notes: List[str] = []
+
+        def param_ok(p: str) -> bool:
+            if owner is None:
+                return False
+            ok, why = callers_ok(owner, p, depth - 1)
+            if not ok:
+                notes.append(why)
+            return ok
+        idx = _node_index(g)
+
+        def attr_ok(x: ast.Attribute, _at):
+            # `obj.attr` of an object a package function returned: what the attribute is built from at that call
+            if not isinstance(x.value, ast.Name):
+                return None
+            outs = _origins(nf, x.value)
+            srcs = [o for o in outs if isinstance(o, ast.Call)]
+            if not srcs or len(srcs) != len(outs):
+                return None
+            for sc in srcs:
+                fed = _returned_field_sources(repo, m, sc, x.attr)
+                if fed is None:
+                    notes.append(f"`{norm(x)}` ({m.rel}:{getattr(x, 'lineno', 0)}): what `{norm(sc.func)}` stores as `.{x.attr}` could not be followed")
+                    return False, x
+                for a in fed:
+                    ok, why = _canonical_path(g, nf, a, idx.get(id(sc)), param_ok, None, attr_ok)
+                    if not ok:
+                        notes.append(f"`{norm(x)}` is built from `{norm(a)[:50]}` ({m.rel}:{getattr(a, 'lineno', 0)}), where `{norm(why)[:50] if why is not None else '?'}` is not resolved (no .resolve() / realpath on the way)")
+                        return False, why
+            return True, None
+        ok, why = _canonical_path(g, nf, e, at, param_ok, None, attr_ok)
+        if ok:
+            return True, ""
+        return False, notes[0] if notes else f"`{norm(why)[:60] if why is not None else '?'}` ({m.rel}:{getattr(why, 'lineno', 0)}) is not resolved (no .resolve() / realpath on the way)"
+
+    for uf in uri_fns:
+        nf = normalize(repo, ident_mod, uf)
+        g = CFG(nf)
+        idx = _node_index(g)
+        qn = qualname_of(uf)
+        for c in [c for c in calls_in(nf) if call_attr(c) == "as_uri" and isinstance(c.func, ast.Attribute)]:
+            recv, at = c.func.value, idx.get(id(c))
+            asked: List[str] = []
+            ok, why = _canonical_path(g, nf, recv, at, lambda p: False)
+            if ok:
+                R.ok(r_cu, IDENT, qn, f"{norm(c)[:60]}: the path is resolved in {qn}")
+                continue
+            # not resolved here: the joined path is canonical only if the base it is joined onto is (the relative part is the
+            # specification's own text, which the spec id covers)
+            joins = [x for s_ in _slice_exprs(nf, recv) for x in ast.walk(s_) if isinstance(x, ast.BinOp) and isinstance(x.op, ast.Div)]
+            bases = {n_ for j in joins for n_ in _slice_names(nf, j.left) if n_ in _params(nf)}
+            ok2, why2 = bool(bases), f"`{norm(why)[:50] if why is not None else norm(recv)}` is neither resolved nor joined onto a base directory"
+            for bp in sorted(bases):
+                ok2, why2 = callers_ok(uf, bp, 4)
+                if not ok2:
+                    break
+            R.check(ok2, r_cu, IDENT, qn, norm(stmt_of(c))[:90],
+                    f"the uri that enters the inputs id is rendered from a path that is not resolved in {qn} (`{norm(why)[:40] if why is not None else norm(recv)[:40]}`), and the base directory it is joined onto is not resolved either: {why2} - the same file with the same content gets another uri, so another run_space_inputs_id and (with an idempotency key) another launch id, when the pipeline is addressed as `sub/../p.yaml` or through a symlinked directory", c.lineno)
+
+
 # ------------------------------------------------------------------------------- D4 launch id derivation
 
 def launch_id_rules(repo: Repo, R: Report) -> None:
@@ -2743,3 +3838,4 @@ def launch_id_rules(repo: Repo, R: Report) -> None:
     at_once = bool(whole_reads) and not sized_reads and any(c.args for c in fed)
     file_digest = any(call_name(c) == "hashlib.file_digest" for c in calls_in(sf))
     R.check(chunked or at_once or file_digest, r_l, IDENT, qualname_of(sf_def), "digest of the whole file content", "file digest does not read the complete content", sf.lineno)
+    canonical_uri_rules(repo, R, ident_fns)
